@@ -45,6 +45,9 @@ def run(P, rep, tier):
     rep.attempt(r4_cleanup, P, rep, ctx)
     rep.attempt(r_loader_agreement, P, rep, ctx, "C06.R5")
     rep.attempt(_r6, P, rep, ctx)
+    # the per-node table of attached objects (and the metadata directory path) is rebuilt from the container on every
+    # access: a cached view deletes the whole metadata directory / writes to a moved node's old location
+    rep.attempt(c07.r5_fresh_view, P, rep, ctx, "C06.R7")
     rep.floor("C06.R1", 18)
     rep.floor("C06.R2", 10)
     rep.floor("C06.R3", 10)
